@@ -26,6 +26,26 @@ Fixpoint hash_acc (s : string) (h : int) : int :=
   end.
 Definition hash_str (s : string) : Z := Uint63.to_Z (hash_acc s 0%uint63).
 
+(* The same digest over a byte encoding of structured observations, without building
+   texts: a string is its bytes then 255; a number 8 bytes big-endian; a list its
+   elements then 254; None is 253, Some x is 252 then x. *)
+Definition hb (h b : int) : int := ((h * 256 + b) mod HM)%uint63.
+Fixpoint h_str (s : string) (h : int) : int :=
+  match s with
+  | EmptyString => hb h 255%uint63
+  | String c r => h_str r (hb h (int_of_ascii c))
+  end.
+Definition byte_of (n : int) (shift : int) : int := PrimInt63.land (PrimInt63.lsr n shift) 255%uint63.
+Definition h_int (z : Z) (h : int) : int :=
+  let n := Uint63.of_Z z in
+  hb (hb (hb (hb (hb (hb (hb (hb h (byte_of n 56%uint63)) (byte_of n 48%uint63)) (byte_of n 40%uint63))
+     (byte_of n 32%uint63)) (byte_of n 24%uint63)) (byte_of n 16%uint63)) (byte_of n 8%uint63)) (byte_of n 0%uint63).
+Definition h_list {A} (f : A -> int -> int) (l : list A) (h : int) : int :=
+  hb (fold_left (fun h x => f x h) l h) 254%uint63.
+Definition h_opt {A} (f : A -> int -> int) (o : option A) (h : int) : int :=
+  match o with None => hb h 253%uint63 | Some x => f x (hb h 252%uint63) end.
+Definition h_names := h_list h_str.
+
 (* ---------- histories as the harness writes them ---------- *)
 Inductive sym :=
 | SDisc (snap : list report)    (* successful discover() at the current clock *)
@@ -72,6 +92,25 @@ Definition pub_text (A : alphabet)
   "P" +++ show_names pnames +++ show_list (fun g => show_opt show_names (plights g)) (al_locs A) +++
   "C" +++ show_Z ok +++ "," +++ show_Z fail.
 
+Definition h_light (v : light) (h : int) : int := h_int (l_birth v) (h_str (l_loc v) (h_str (l_group v) h)).
+Definition pub_enc (A : alphabet)
+           (names : list string) (count : Z) (light_of : string -> option light)
+           (gnames : list string) (glights : string -> option (list string))
+           (pnames : list string) (plights : string -> option (list string))
+           (ok fail : Z) (h : int) : int :=
+  let h := h_int count (h_names names h) in
+  let h := h_list (fun n => h_opt h_light (light_of n)) (al_names A) h in
+  let h := h_list (fun g => h_opt h_names (glights g)) (al_groups A) (h_names gnames h) in
+  let h := h_list (fun g => h_opt h_names (plights g)) (al_locs A) (h_names pnames h) in
+  h_int fail (h_int ok h).
+
+Definition spec_enc (A : alphabet) (s : sstate) (h : int) : int :=
+  let m := s_map s in
+  pub_enc A (spec_light_names m) (spec_light_count m) (fun n => a_get n m)
+          (spec_group_names m) (spec_group_lights m)
+          (spec_location_names m) (spec_location_lights m)
+          (s_ok s) (s_fail s) h.
+
 Definition spec_pub (A : alphabet) (s : sstate) : string :=
   let m := s_map s in
   pub_text A (spec_light_names m) (spec_light_count m) (fun n => a_get n m)
@@ -86,13 +125,20 @@ Fixpoint spec_trace (A : alphabet) (s : sstate) (l : list sym) : string :=
   | y :: r => let s' := s_sym s y in spec_pub A s' +++ "@" +++ spec_trace A s' r
   end.
 Definition spec_hist_text (A : alphabet) (l : list sym) : string := spec_trace A s_init l.
-Definition spec_hist_digest (A : alphabet) (l : list sym) : Z := hash_str (spec_hist_text A l).
+Fixpoint spec_trace_enc (A : alphabet) (s : sstate) (l : list sym) (h : int) : int :=
+  match l with
+  | [] => h
+  | y :: r => let s' := s_sym s y in spec_trace_enc A s' r (spec_enc A s' h)
+  end.
+Definition spec_hist_digest (A : alphabet) (l : list sym) : Z := Uint63.to_Z (spec_trace_enc A s_init l 0%uint63).
 
 (* all one-symbol continuations of a history *)
 Definition spec_succ_text (A : alphabet) (symtab : list sym) (prefix : list sym) : string :=
   let s := fold_left s_sym prefix s_init in
   sconcat (map (fun y => spec_pub A (s_sym s y) +++ "@") symtab).
-Definition spec_succ_digest A symtab prefix : Z := hash_str (spec_succ_text A symtab prefix).
+Definition spec_succ_digest (A : alphabet) (symtab : list sym) (prefix : list sym) : Z :=
+  let s := fold_left s_sym prefix s_init in
+  Uint63.to_Z (fold_left (fun h y => spec_enc A (s_sym s y) h) symtab 0%uint63).
 
 (* compare inside Coq: print the ids whose digest differs *)
 Definition ids (l : list Z) : string := show_list show_Z l.
